@@ -197,6 +197,76 @@ def _worker(args):
     return part
 
 
+BUS_ALPHA = [b"A", b"z", b"0", b"_", b"-", b".", b":", b"/", b" "]
+
+
+def _bus_worker(args):
+    """Cross-entry-point layer: the same strings are offered to a running bus as RequestName argument and as
+    values of the sender / interface / member / path keys of AddMatch; the bus must accept exactly what the
+    library predicate (mask from h_syntax) accepts - plus the documented extra refusals of RequestName."""
+    import shutil
+    import tempfile
+    from vf import busproc, client
+    seed, exe, shard, nshards, L = args
+    part = report.Part()
+    b = build.build("asan", quiet=True)
+    strings = []
+    for ln in range(1, L + 1):
+        for t in itertools.product(BUS_ALPHA, repeat=ln):
+            strings.append(b"".join(t))
+    rng = gen.rng_for(seed, PROP, "bus", shard)
+    strings += [gen.rand_interface(rng) for _ in range(40)] + [gen.rand_busname(rng) for _ in range(40)] + \
+               [gen.rand_path(rng) for _ in range(40)] + [b"a." + b"b" * 252, b"a." + b"b" * 253, b"a." + b"b" * 254]
+    strings = [x for i, x in enumerate(strings) if i % nshards == shard]
+    masks = hrun.run_cases(exe, [x.hex() or "-" for x in strings], per_batch_timeout=300)
+    rundir = tempfile.mkdtemp(prefix="verif-c16-")
+    try:
+        d = busproc.Daemon(b, rundir, busproc.make_config("@SOCK@"), name="bus")
+        c = client.connect(d.sock)
+        nrules = 0
+        for x, m in zip(strings, masks):
+            if not isinstance(m, int):
+                continue
+            part.evaluations += 1
+            wit = {"hex": x.hex(), "mask": m}
+            r = c.bus_call(b"RequestName", b"su", [x, 4])
+            ok = r.msg.type == 2
+            lib = bool(m & 1)
+            want = lib and x[:1] != b":" and x != b"org.freedesktop.DBus"
+            if ok != want:
+                part.violation("%s:bus-entry:RequestName:%s" % (PROP, "accepts-what-library-rejects" if ok else "rejects-what-library-accepts"),
+                               "RequestName verdict %s, library predicate %s" % (ok, lib), wit)
+            if ok:
+                c.bus_call(b"ReleaseName", b"s", [x])
+            part.count("bus-entry:RequestName")
+            if b"'" in x or b"," in x:
+                continue
+            for key, bit in ((b"sender", 0), (b"interface", 1), (b"member", 2), (b"path", 4)):
+                text = key + b"='" + x + b"'"
+                r = c.bus_call(b"AddMatch", b"s", [text])
+                ok = r.msg.type == 2
+                lib = bool(m & (1 << bit))
+                if ok != lib:
+                    part.violation("%s:bus-entry:AddMatch-%s:%s" % (PROP, key.decode(), "accepts-what-library-rejects" if ok else "rejects-what-library-accepts"),
+                                   "AddMatch(%s=...) verdict %s, library predicate %s" % (key.decode(), ok, lib), wit)
+                if ok:
+                    c.bus_call(b"RemoveMatch", b"s", [text])
+                part.count("bus-entry:AddMatch")
+                part.sig("bus-entry", key.decode(), ok, min(len(x), 6))
+        c.close()
+        d.stop()
+        for cls, site, text in d.problems():
+            part.violation("%s:%s:%s" % (PROP, cls, site), "daemon reported %s" % cls, {"stderr": text[-2000:]})
+    finally:
+        shutil.rmtree(rundir, ignore_errors=True)
+    c.take_inbox()
+    return part
+
+
+def _dispatch(a):
+    return _bus_worker(a[1]) if a[0] == "bus" else _worker(a)
+
+
 def run(tier, seed, replay=None, scale=1.0):
     r = report.Run(PROP, tier)
     r.rule = RULE
@@ -235,13 +305,19 @@ def run(tier, seed, replay=None, scale=1.0):
             shards.append((seed, exe, "utf", 4, (seed + i) % 16, 16, 0))
     for sh in range(16):
         shards.append((seed, exe, "extra", 0, sh, 16, max(10, int(nextra * scale) // 16)))
-    for part in report.run_sharded(_worker, shards):
+    busL = 3 if tier == "quick" else 4
+    if scale >= 1:
+        shards += [("bus", (seed, exe, sh, 16, busL)) for sh in range(16)]
+    for part in report.run_sharded(_dispatch, shards):
         r.merge(part)
     exhaustive = sorted(k for k in r.counters if k.startswith("space:"))
     r.extra["exhaustive_subspaces"] = {k: int(r.counters[k]) for k in exhaustive}
     r.extra["exhaustive"] = False
     r.require("predicate-evaluations", 1000)
     r.require("public-evaluations", 500)
+    if scale >= 1:
+        r.require("bus-entry:AddMatch", 500)
+        r.require("bus-entry:RequestName", 200)
     r.assumptions = ["grammars in vf/wire.py transcribe the specification's Valid Names / Valid Object Paths / Valid Signatures / UTF-8 text",
-                     "the bus entry points (AddMatch, RequestName) are cross-checked by C04/C07, message parsing by C01"]
+                     "bus entry points (RequestName argument; sender/interface/member/path values of AddMatch) are compared with the library predicate's verdict on the same string; message parsing is C01's"]
     return r.finish()
